@@ -199,7 +199,12 @@ class Adapter(object):
                     sub.add_connection(c)
                 cid = lowest_unused(cused)
                 k = a["k"]
-                link = m.t2connection([g.block[real_block(a["h"])], sb[0]], {"v": 3, "h": 1}.get(k, 2),
+                hostobj, subobj = g.block[real_block(a["h"])], sb[0]
+                if a.get("copy_link"):
+                    # the linking connection described with block objects that carry the right names but are not the grids' own
+                    import copy as _cp
+                    hostobj, subobj = _cp.copy(hostobj), _cp.copy(subobj)
+                link = m.t2connection([hostobj, subobj], {"v": 3, "h": 1}.get(k, 2),
                                       [10.0 * (2 * cid - 1), 10.0 * (2 * cid)], 100.0 * cid,
                                       {"v": -1.0, "h": 0.0}.get(k, 1.0))
                 self.setvid(link, cid)
@@ -462,7 +467,7 @@ def random_action(ad, rng, base, rocks, kinds, fracs, allow_minc=True):
                 r = rng.choice(rocks)
                 if r in rks and r in used:
                     continue
-                return {"op": op, "h": h, "n": n, "r": r, "k": rng.choice(kinds)}
+                return {"op": op, "h": h, "n": n, "r": r, "k": rng.choice(kinds), "copy_link": rng.random() < 0.4}
             continue
         if op == "add_rocktype":
             r = rng.choice(rocks)
